@@ -412,6 +412,24 @@ pub fn structured_mutants(item: &Item, mut emit: impl FnMut(Mutant)) {
                     }
                 }
             }
+            // every run of whole blocks [j, k) removed with index and footer kept: the index then lists more blocks than
+            // the stream holds (all blocks removed, the trailing ones removed, one in the middle removed)
+            for j in 0..l.blocks.len() {
+                for k in j + 1..=l.blocks.len() {
+                    if l.blocks.len() >= 2 && j == 0 && k == 1 {
+                        continue; // = xz:drop-block0 below
+                    }
+                    let mut m = f[..l.blocks[j].0].to_vec();
+                    m.extend_from_slice(&f[l.blocks[k - 1].2..]);
+                    emit(Mutant { desc: format!("xz:drop-blocks{j}..{k}"), class: "block-edit", bytes: m });
+                }
+            }
+            // the last block duplicated (index lists fewer blocks than the stream holds)
+            if let Some(&(s, _, e)) = l.blocks.last() {
+                let mut m = f[..e].to_vec();
+                m.extend_from_slice(&f[s..]);
+                emit(Mutant { desc: "xz:dup-last-block".into(), class: "block-edit", bytes: m });
+            }
             // drop / duplicate / swap whole blocks, index kept (and index rebuilt is not attempted)
             if l.blocks.len() >= 2 {
                 let (s0, _, e0) = l.blocks[0];
